@@ -8,6 +8,7 @@ use crate::{
         type_registry::TypeRegistry,
         types::{Type, Visibility},
     },
+    util,
 };
 
 #[derive(Debug, Clone, PartialEq, Eq, Hash)]
@@ -295,6 +296,19 @@ pub fn build(
             )),
         })
         .collect::<anyhow::Result<Vec<_>>>()?;
+
+    let mut argument_names: Vec<&str> = vec![];
+    for argument in &arguments {
+        if let Argument::Field(name, _) = argument {
+            if argument_names.contains(&util::plain_ident(name)) {
+                anyhow::bail!(
+                    "argument `{name}` of function `{}` is defined more than once",
+                    function.name
+                );
+            }
+            argument_names.push(util::plain_ident(name));
+        }
+    }
 
     let return_type = function
         .return_type
